@@ -18,10 +18,19 @@ package shmipc
 import (
 	"bytes"
 	"fmt"
+	"io"
 	"math/rand"
+	"net"
+	"os"
 	"strings"
+	"sync"
+	"sync/atomic"
 	"time"
+
+	syscall "golang.org/x/sys/unix"
 )
+
+var c20Seq uint64
 
 func init() {
 	vProps["C20"] = &vProp{model: "c20", quickN: 1500, thoroughN: 30000, gen: c20Gen, exec: c20Exec}
@@ -451,7 +460,179 @@ func (c *c20Run) checkQuiescent(when string) {
 	}
 }
 
+// ---- bigframe <slices> <frames>: a real pair, the server's stream in callback mode. While OnData is held, the client
+// flushes one message whose chain is <slices> slices long and then <frames> small ones, OnData being released while the
+// client is still flushing: every byte flushed must be offered to OnData exactly once, in order, by one call at a time ----
+
+type c20BigCB struct {
+	mu      sync.Mutex
+	got     []byte
+	inCall  int32
+	overlap bool
+	gate    chan struct{}
+	first   bool
+}
+
+func (b *c20BigCB) OnData(r BufferReader) {
+	if atomic.AddInt32(&b.inCall, 1) != 1 {
+		b.overlap = true
+	}
+	defer atomic.AddInt32(&b.inCall, -1)
+	b.mu.Lock()
+	first := !b.first
+	b.first = true
+	b.mu.Unlock()
+	if first {
+		<-b.gate
+	}
+	for r.Len() > 0 {
+		n := r.Len()
+		d, err := r.ReadBytes(n)
+		if err != nil {
+			return
+		}
+		b.mu.Lock()
+		b.got = append(b.got, d...)
+		b.mu.Unlock()
+		r.ReleasePreviousRead()
+	}
+}
+func (b *c20BigCB) OnLocalClose()  {}
+func (b *c20BigCB) OnRemoteClose() {}
+
+type c20BigLCB struct{ cb *c20BigCB }
+
+func (l *c20BigLCB) OnNewStream(s *Stream)     { s.SetCallbacks(l.cb) }
+func (l *c20BigLCB) OnShutdown(reason string) {}
+
+func c20BigByte(i int) byte { return byte((i*13 + 5) % 253) }
+
+func c20BigFrame(f []string) vResult {
+	res := vResult{noModel: true, out: []string{"done"}, tags: []string{"long-chain-with-arrivals-during-the-move"}}
+	slices, frames := vAtoi(f[1]), vAtoi(f[2])
+	if slices < 1 || slices > 2000 || frames < 1 || frames > 20000 {
+		res.out = []string{"bad-op"}
+		return res
+	}
+	internalLogger = &logger{"", io.Discard, 3}
+	prefix := fmt.Sprintf("/dev/shm/verif_c20b_%d_%d", os.Getpid(), atomic.AddUint64(&c20Seq, 1))
+	fds, err := syscall.Socketpair(syscall.AF_UNIX, syscall.SOCK_STREAM|syscall.SOCK_CLOEXEC, 0)
+	if err != nil {
+		res.specFail, res.key = err.Error(), "setup"
+		return res
+	}
+	f0, f1 := os.NewFile(uintptr(fds[0]), "a"), os.NewFile(uintptr(fds[1]), "b")
+	ca, _ := net.FileConn(f0)
+	cb, _ := net.FileConn(f1)
+	f0.Close()
+	f1.Close()
+	const sliceSize = 256
+	mk := func(p string) *Config {
+		cfg := c12Config(p, MemMapTypeMemFd)
+		cfg.ShareMemoryBufferCap = 16 << 20
+		cfg.BufferSliceSizes = []*SizePercentPair{{Size: sliceSize, Percent: 100}}
+		cfg.QueueCap = 1 << 15
+		return cfg
+	}
+	bcb := &c20BigCB{gate: make(chan struct{})}
+	scfg := mk(prefix + "_srv")
+	scfg.listenCallback = &c20BigLCB{cb: bcb}
+	chC := c12Start(mk(prefix), ca, true)
+	chS := c12Start(scfg, cb, false)
+	rc, okc := c12Wait(chC, 20*time.Second)
+	rs, oks := c12Wait(chS, 20*time.Second)
+	defer func() {
+		c12CloseSession(rc.sess)
+		c12CloseSession(rs.sess)
+	}()
+	if !okc || !oks || rc.err != nil || rs.err != nil {
+		res.specFail, res.key = fmt.Sprintf("establishment failed: %v / %v", rc.err, rs.err), "setup"
+		return res
+	}
+	st, err := rc.sess.OpenStream()
+	if err != nil {
+		res.specFail, res.key = "OpenStream: "+err.Error(), "setup"
+		return res
+	}
+	sent := 0
+	send := func(n int) error {
+		d := make([]byte, n)
+		for i := range d {
+			d[i] = c20BigByte(sent + i)
+		}
+		if _, err := st.BufferWriter().WriteBytes(d); err != nil {
+			return err
+		}
+		if err := st.Flush(false); err != nil {
+			return err
+		}
+		sent += n
+		return nil
+	}
+	fail := func(key, what string) vResult {
+		select {
+		case <-bcb.gate:
+		default:
+			close(bcb.gate)
+		}
+		res.specFail, res.key = what, key
+		return res
+	}
+	if err := send(8); err != nil { // frame 0: OnData is entered and held
+		return fail("setup", "first frame: "+err.Error())
+	}
+	if err := send(slices * sliceSize); err != nil {
+		return fail("setup", "long frame: "+err.Error())
+	}
+	released := false
+	for i := 0; i < frames; i++ {
+		if !released && i >= frames/8 {
+			close(bcb.gate)
+			released = true
+		}
+		if err := send(8); err != nil {
+			return fail("setup", fmt.Sprintf("frame %d: %v", i, err))
+		}
+	}
+	if !released {
+		close(bcb.gate)
+	}
+	// quiescence: everything flushed has been offered
+	n := 0
+	for t0 := time.Now(); time.Since(t0) < 10*time.Second; {
+		bcb.mu.Lock()
+		n = len(bcb.got)
+		bcb.mu.Unlock()
+		if n >= sent {
+			break
+		}
+		time.Sleep(2 * time.Millisecond)
+	}
+	bcb.mu.Lock()
+	got := append([]byte{}, bcb.got...)
+	bcb.mu.Unlock()
+	if bcb.overlap {
+		res.specFail, res.key = "two OnData calls of one stream ran at the same time", "ondata-overlap"
+		return res
+	}
+	for i := range got {
+		if i >= sent || got[i] != c20BigByte(i) {
+			res.specFail, res.key = fmt.Sprintf("byte %d offered to OnData is not byte %d of what the peer flushed (%d bytes flushed, %d offered): bytes were skipped, repeated or reordered", i, i, sent, len(got)), "callback-bytes-lost"
+			return res
+		}
+	}
+	if len(got) != sent {
+		res.specFail, res.key = fmt.Sprintf("the peer flushed %d bytes (one message of %d slices, then %d small ones while OnData was being released); %d were offered to OnData at quiescence", sent, slices, frames, len(got)), "callback-bytes-lost"
+	}
+	return res
+}
+
 func c20Exec(ops []string) vResult {
+	if len(ops) == 1 && strings.HasPrefix(ops[0], "bigframe ") {
+		if f := vFields(ops[0]); len(f) == 3 {
+			return c20BigFrame(f)
+		}
+	}
 	c := &c20Run{tags: map[string]bool{}}
 	var out []string
 	started := false
@@ -552,6 +733,9 @@ func c20Exec(ops []string) vResult {
 }
 
 func c20Gen(r *rand.Rand, tier string, idx int) []string {
+	if idx%150 == 11 {
+		return []string{fmt.Sprintf("bigframe %d %d", 200+r.Intn(600), 1000+r.Intn(3000))}
+	}
 	ops := []string{"init"}
 	n := 3 + r.Intn(16) // bursts
 	closeInCb := r.Intn(3) == 0
